@@ -69,6 +69,9 @@ Definition dy_of_float (f : float) : dy :=
 Definition npeaks_exact (m t : float) (a : Z) : bool :=
   let lambda := Qred (qf0 m / 1800) in
   if negb (PrimFloat.leb 0 t && PrimFloat.leb t 1 && PrimFloat.leb 0 m && qleb (qf0 m) (inject_Z 100000)) then true else
+  (* all of the signal is never reached: for masses up to 1e5 no term is ever infinite (lambda^i / i! stays finite or becomes 0 or NaN),
+     so the answer is 255 *)
+  if PrimFloat.eqb t 1 then Z.eqb a 255 else
   (* 1 - t is exact in binary64 for t in [0.5,1]; in general one rounding: enclose it *)
   let one_t := 1 - qf0 t in
   let tgt := mkIv (dy_of_frac (Qnum one_t) (Zpos (Qden one_t))) (dy_of_frac (Qnum one_t) (Zpos (Qden one_t))) in
